@@ -101,6 +101,10 @@ def cyclic_grammars():
 def multiline_shapes():
     """Constructs whose span ends on another line than it starts on."""
     out = [
+        'cmd --input <FI\nLE> [--verbose];',
+        'cmd a;\n<UN\nUSED> = x;',
+        'cmd a;\n<S\nP@bash> = {{{ x }}};\n<S\nP@fish> = {{{ x }}};\n<S\nP@zsh> = {{{ x }}};\n<S\nP@pwsh> = {{{ x }}};',
+        'cmd k=<a long\n name>;',
         'cmd a\n"d" <X>;\n<X> = a\n"e";',
         'cmd a;\n<A@bash> = b\n c;',
         'cmd a;\n<A@bash> = (b |\n c);',
